@@ -79,7 +79,7 @@ def gen_cases(ctx):
         cases.append({"kind": "norm", "prop": prop, "group": ["iso", "diag", "full", "malformed"][k], "forms": forms})
     for i in range(n_pred):
         def prop_val(base_one):
-            k = rng.randrange(9)
+            k = rng.randrange(12)
             x = 1.0 if base_one and rng.random() < 0.5 else rval(rng)
             if not base_one and rng.random() < 0.35:
                 x = 0.0
@@ -99,7 +99,13 @@ def gen_cases(ctx):
                 return T(F(x), z, z, z, F(x), z, z, z, F(x * (1 - 2.0 ** -41)))
             if k == 7:
                 return T(F(x * (1 + 2.0 ** -40)), z, z, z, F(x), z, z, F(-0.0), F(x))
-            return T(F(x), z, z, z, F(x), z, F(-1e-300), z, F(x))
+            if k == 8:
+                return T(F(x), z, z, z, F(x), z, F(-1e-300), z, F(x))
+            if k == 9:
+                return T(F(x), F(x), F(x * 1.5 + 1))                       # xx = yy != zz
+            if k == 10:
+                return T(F(x * 2 + 1), F(x), F(x))                         # xx != yy = zz
+            return T(F(x), z, z, z, F(x), z, z, z, F(x + 0.25))
         cases.append({"kind": "pred", "mat": {"permittivity": prop_val(False) if rng.random() < 0.9 else F(1.0), "permeability": prop_val(True),
                                               "electric_conductivity": prop_val(False), "magnetic_conductivity": prop_val(False)}})
         if cases[-1]["mat"]["permittivity"] == F(0.0):
